@@ -1,5 +1,17 @@
 // C20 master: the base verification master + the actor functions, so that the master itself can be an actor
 inherit "/master";
+
+// valid_seteuid policies that do not answer: "raise" = error for every request,
+// "raise-root" = own-uid-only, but an error when the requested euid is "Root"
+int valid_seteuid(object ob, string newuid) {
+  mixed p = query_policy("valid_seteuid");
+  if (p == "raise" || p == "raise-root") {
+    if (query_policy("log_uid")) mlog += ({ ({ "valid_seteuid", file_name(ob), newuid }) });
+    if (p == "raise" || newuid == "Root") error("valid_seteuid failing on purpose\n");
+    return newuid == getuid(ob);
+  }
+  return ::valid_seteuid(ob, newuid);
+}
 // C20 actor: every op of the uid alphabet as a function; results are returned, errors propagate to the harness
 mixed do_load(string f)   { return load_object(f); }
 mixed do_clone(string f)  { return clone_object(f); }
